@@ -174,7 +174,7 @@ def make_scenario(cfg: str, instant: bool):
                         m.calls[e[1]]["fut"].set_result(None)
                     else:
                         m.calls[e[1]]["state"] = "failed"
-                        m.calls[e[1]]["fut"].set_exception(RuntimeError("distribution failed"))
+                        m.calls[e[1]]["fut"].set_exception(TimeoutError())  # an exception without arguments (as asyncio.timeout raises it)
 
                 def quiescent_check():
                     # (c) an idle group has started its most recent request
